@@ -131,6 +131,7 @@ def check_c04(run: Run, prog: Program) -> None:
     )
     n1 = kinds.rule_K1(run, prog)
     n2 = kinds.rule_K2(run, prog)
+    kinds.rule_K2e(run, prog)
     n5 = kinds.rule_K5(run, prog)
     run.floor("concrete collection classes", n1, 5)
     run.floor("element access obligations", n2, 5)
@@ -318,6 +319,9 @@ def check_c07(run: Run, prog: Program) -> None:
     )
     n2 = variance.rule_V2(run, prog)
     n3 = variance.rule_V3(run, prog)
+    from geolint import kinds
+
+    kinds.rule_K4(run, prog)  # derived caches (supporting line/plane, memoised duals) must move with the object
     variance.rule_kind_guards(run, prog)
     run.floor("constructor chains analysed", n2, 15)
     run.floor("diagram edges in __apply__", n3, 2)
